@@ -27,6 +27,7 @@ Logged(sn) == [i \in 1..Len(sn) |->
 
 TraceNext ==
   /\ l <= Len(Rec)
+  /\ UNCHANGED nops
   /\ CASE Ev = "reset"    -> st' = [r \in Recs |-> InitRec(E.w)] /\ Adv
        [] Ev = "describe" -> E.r \in Recs /\ Describe(E.r, E.k, E.n, E.u, E.d) /\ Adv
        [] Ev = "register" -> E.r \in Recs /\ M(E) \in Metric /\ Register(E.r, M(E)) /\ Adv
